@@ -18,6 +18,12 @@
                 RNotify, RReconnect, RDead    reserved for C11 / C16: no transition leaves them yet
    [ks] is the continuation stack of the recursion processResponse -> container items -> tail.
 
+   Labels: LCall t hinted (a caller starts MakeRequest / MakeRequestWithHintToDecoder), LStep a clk
+   (actor a runs to its next yield point; clk is the clock reading used if the block calls
+   newMsgID - DESIGN's `Tick` is folded into it), LSrv f (the server puts frame f on the wire; also
+   appended to the ghost field srv_log, which no transition reads), LClose (reserved).
+   A label that is not enabled (lock held, nothing to read, rendezvous partner not waiting) is
+   refused: step returns None.
    Payloads are abstract: a result is (kind, token).  msg ids, seq_nos, salts are Z.
    seq_no is Go int32: [wrap32]; `seqNo | 1` is Z.lor.  The clock is an arbitrary label
    parameter: GenerateMessageId() = 4 * clk for some clk (low two bits cleared). *)
@@ -94,12 +100,13 @@ Record state := {
   elog : list event;                 (* newest first *)
   store : list Z;                    (* salts written to the session store, newest first *)
   rets : list (nat * nat * Z * ret); (* completed calls: caller, call number, its msg id, returned value *)
-  closed : bool                      (* reserved: the server closed the connection *)
+  closed : bool;                     (* reserved: the server closed the connection *)
+  srv_log : list frame               (* ghost: every frame the server has sent, newest first *)
 }.
 
 Definition init : state := {|
   callers := []; rx := RRead; lock := None; last_id := 0; seqno := 0; salt := 0;
-  table := []; hints := []; wire_in := []; elog := []; store := []; rets := []; closed := false |}.
+  table := []; hints := []; wire_in := []; elog := []; store := []; rets := []; closed := false; srv_log := [] |}.
 
 Inductive label :=
 | LCall (t : nat) (hinted : bool)
@@ -122,7 +129,7 @@ Fixpoint setl (t : nat) (c : caller) (l : list caller) : list caller :=
 Definition set_caller (t : nat) (c : caller) (s : state) : state :=
   {| callers := setl t c (callers s); rx := rx s; lock := lock s; last_id := last_id s; seqno := seqno s;
      salt := salt s; table := table s; hints := hints s; wire_in := wire_in s; elog := elog s;
-     store := store s; rets := rets s; closed := closed s |}.
+     store := store s; rets := rets s; closed := closed s; srv_log := srv_log s |}.
 
 Definition set_pc (t : nat) (p : cpc) (s : state) : state :=
   let c := getc t s in set_caller t {| c_pc := p; c_hint := c_hint c; c_k := c_k c |} s.
@@ -130,47 +137,52 @@ Definition set_pc (t : nat) (p : cpc) (s : state) : state :=
 Definition set_rx (r : rpc) (s : state) : state :=
   {| callers := callers s; rx := r; lock := lock s; last_id := last_id s; seqno := seqno s;
      salt := salt s; table := table s; hints := hints s; wire_in := wire_in s; elog := elog s;
-     store := store s; rets := rets s; closed := closed s |}.
+     store := store s; rets := rets s; closed := closed s; srv_log := srv_log s |}.
 
 Definition set_lock (l : option actor) (s : state) : state :=
   {| callers := callers s; rx := rx s; lock := l; last_id := last_id s; seqno := seqno s;
      salt := salt s; table := table s; hints := hints s; wire_in := wire_in s; elog := elog s;
-     store := store s; rets := rets s; closed := closed s |}.
+     store := store s; rets := rets s; closed := closed s; srv_log := srv_log s |}.
 
 Definition set_last (i : Z) (s : state) : state :=
   {| callers := callers s; rx := rx s; lock := lock s; last_id := i; seqno := seqno s;
      salt := salt s; table := table s; hints := hints s; wire_in := wire_in s; elog := elog s;
-     store := store s; rets := rets s; closed := closed s |}.
+     store := store s; rets := rets s; closed := closed s; srv_log := srv_log s |}.
 
 Definition set_tables (tb : list (Z * chan)) (h : list Z) (s : state) : state :=
   {| callers := callers s; rx := rx s; lock := lock s; last_id := last_id s; seqno := seqno s;
      salt := salt s; table := tb; hints := h; wire_in := wire_in s; elog := elog s;
-     store := store s; rets := rets s; closed := closed s |}.
+     store := store s; rets := rets s; closed := closed s; srv_log := srv_log s |}.
 
 Definition set_in (w : list frame) (s : state) : state :=
   {| callers := callers s; rx := rx s; lock := lock s; last_id := last_id s; seqno := seqno s;
      salt := salt s; table := table s; hints := hints s; wire_in := w; elog := elog s;
-     store := store s; rets := rets s; closed := closed s |}.
+     store := store s; rets := rets s; closed := closed s; srv_log := srv_log s |}.
 
 Definition log (e : event) (s : state) : state :=
   {| callers := callers s; rx := rx s; lock := lock s; last_id := last_id s; seqno := seqno s;
      salt := salt s; table := table s; hints := hints s; wire_in := wire_in s; elog := e :: elog s;
-     store := store s; rets := rets s; closed := closed s |}.
+     store := store s; rets := rets s; closed := closed s; srv_log := srv_log s |}.
 
 Definition set_salt (x : Z) (s : state) : state :=
   {| callers := callers s; rx := rx s; lock := lock s; last_id := last_id s; seqno := seqno s;
      salt := x; table := table s; hints := hints s; wire_in := wire_in s; elog := elog s;
-     store := x :: store s; rets := rets s; closed := closed s |}.
+     store := x :: store s; rets := rets s; closed := closed s; srv_log := srv_log s |}.
 
 Definition add_ret (r : nat * nat * Z * ret) (s : state) : state :=
   {| callers := callers s; rx := rx s; lock := lock s; last_id := last_id s; seqno := seqno s;
      salt := salt s; table := table s; hints := hints s; wire_in := wire_in s; elog := elog s;
-     store := store s; rets := r :: rets s; closed := closed s |}.
+     store := store s; rets := r :: rets s; closed := closed s; srv_log := srv_log s |}.
+
+Definition push_srv (f : frame) (s : state) : state :=
+  {| callers := callers s; rx := rx s; lock := lock s; last_id := last_id s; seqno := seqno s;
+     salt := salt s; table := table s; hints := hints s; wire_in := wire_in s ++ [f]; elog := elog s;
+     store := store s; rets := rets s; closed := closed s; srv_log := f :: srv_log s |}.
 
 Definition set_closed (s : state) : state :=
   {| callers := callers s; rx := rx s; lock := lock s; last_id := last_id s; seqno := seqno s;
      salt := salt s; table := table s; hints := hints s; wire_in := wire_in s; elog := elog s;
-     store := store s; rets := rets s; closed := true |}.
+     store := store s; rets := rets s; closed := true; srv_log := srv_log s |}.
 
 (* ---- arithmetic of the send path -------------------------------------------------------- *)
 
@@ -185,7 +197,7 @@ Definition wrap32 (z : Z) : Z := (z + 2147483648) mod 4294967296 - 2147483648.
 Definition send (w : wframe) (s : state) : state :=
   {| callers := callers s; rx := rx s; lock := lock s; last_id := last_id s; seqno := wrap32 (seqno s + 2);
      salt := salt s; table := table s; hints := hints s; wire_in := wire_in s; elog := ESent w :: elog s;
-     store := store s; rets := rets s; closed := closed s |}.
+     store := store s; rets := rets s; closed := closed s; srv_log := srv_log s |}.
 
 Definition mk_req (i : Z) (t k : nat) (h : bool) (s : state) : wframe :=
   {| w_id := i; w_seq := Z.lor (seqno s) 1; w_salt := salt s; w_kind := WReq t k h |}.
@@ -343,7 +355,7 @@ Definition step (s : state) (l : label) : option state :=
       end
   | LStep (ACaller t) clk => step_caller t clk s
   | LStep ARx clk => step_rx clk s
-  | LSrv f => Some (set_in (wire_in s ++ [f]) s)
+  | LSrv f => Some (push_srv f s)
   | LClose => Some (set_closed s)
   end.
 
